@@ -156,8 +156,17 @@ def s_encode():
     main = [nk for nk in b58_kinds if nk[0] in ("BTC", "XTN", "LTC", "DOGE", "DASH", "BCH")]
     looks_like_bech32 = st.builds(shaped, st.one_of(st.sampled_from(main), st.sampled_from(b58_kinds)), st.sampled_from(["lower", "upper"]),
                                   st.integers(0, 7), plain)
+    # hashes whose address has a run of one digit at an aligned group of positions (ten '1's ten from the end, ...)
+    def with_run(nk, run, fb):
+        code, kind = nk
+        ver = PFX[code]["address" if kind == "p2pkh" else "p2sh"]
+        data = common.b58_digit_run_data(ver, 20, b"", *run) if ver is not None and code not in GRS else None
+        return {"net": code, "kind": kind, "h": data[len(ver):].hex()} if data is not None else fb
+    runs = st.tuples(st.sampled_from([10, 10, 10, 8, 9, 11, 12, 4, 5, 16]), st.integers(0, 2), st.sampled_from([0, 0, 0, 57, 1, 33]),
+                     st.integers(0, 10**6))
+    digit_runs = st.builds(with_run, st.one_of(st.sampled_from(main), st.sampled_from(b58_kinds)), runs, plain)
     from gen.common import weighted
-    return weighted((15, plain), (1, looks_like_bech32))
+    return weighted((15, plain), (1, looks_like_bech32), (1, digit_runs))
 
 
 BOUNDARY_FILL = [0x00, 0xff, 0x11, 0x99, 0x10, 0x01]
